@@ -55,7 +55,7 @@ pub const SMALL_ORDER: [[u8; 32]; 5] = [
 /// canonical representative (mod p = 2^255-19) of a 32-byte little-endian string, high bit ignored (RFC 7748 §5)
 fn canonical(u: &[u8]) -> [u8; 32] {
     let mut x = [0u8; 32];
-    x.copy_from_slice(u);
+    put(&mut x, u);
     x[31] &= 0x7f;
     // x >= p  <=>  x[31]==0x7f && x[1..31]==0xff.. && x[0] >= 0xed ; then x - p = x[0] - 0xed
     let mut all_ff = x[31] == 0x7f;
